@@ -63,7 +63,7 @@ def exc_is_sub(c, anc):
 
 class State:
     __slots__ = ('pc', 'env', 'heap', 'ghost', 'writes', 'pre', 'exc', 'trace', 'spec',
-                 'entry_env', 'loopw', 'notes', 'tags')
+                 'entry_env', 'loopw', 'notes', 'tags', 'sharded')
 
     def __init__(self):
         self.pc = []
@@ -79,6 +79,7 @@ class State:
         self.loopw = None
         self.notes = ()
         self.tags = {}
+        self.sharded = False
 
     def copy(self):
         s = State()
@@ -95,6 +96,7 @@ class State:
         s.loopw = None if self.loopw is None else set(self.loopw)
         s.notes = self.notes
         s.tags = dict(self.tags)
+        s.sharded = self.sharded
         return s
 
 
@@ -134,6 +136,7 @@ class Engine:
         self.facts = []
         self._fact_ids = set()
         self.undef = []
+        self._unfolded = {}
         self._spec_bases = []
         self.unfolding = 0
         self.spec_prune = int(os.environ.get('PYVC_SPEC_PRUNE', '0'))
@@ -141,6 +144,8 @@ class Engine:
         self._fc_memo = {}
         self.bound_depth = 0
         self.typing = {}
+        self.shard = None            # (index, count) when the paths of one function are split
+        self.shard_depth = 4
         self.cur_is_async = False
         self.case_tag = ''
         from . import lib
@@ -249,6 +254,25 @@ class Engine:
             return None
         return s2
 
+    def add_all(self, st, conds):
+        """Adds several conditions and checks feasibility once. Returns st or None."""
+        for c in conds:
+            cs = z3.simplify(c)
+            if z3.is_false(cs):
+                return None
+            if not z3.is_true(cs):
+                st.pc.append(c)
+        if st.spec:
+            return st
+        t0 = time.time()
+        sol = z3.Solver()
+        sol.set('timeout', self.prune_ms)
+        sol.add(*st.pc)
+        r = sol.check()
+        self.stats['prune_calls'] += 1
+        self.stats['prune_time'] += time.time() - t0
+        return None if r == z3.unsat else st
+
     def fact(self, st, ax):
         """A universally valid library-axiom instance (or a constraint on a fresh symbol)."""
         if st.spec or z3.is_quantifier(ax):
@@ -312,8 +336,27 @@ class Engine:
             out.append(z3.Implies(z3.And(*r), b) if r else b)
 
     def nth_concat_facts(self, t, out, seen):
+        key = ('ncf', t.get_id())
+        hit = self._fc_memo.get(key)
+        if hit is not None:
+            for i, fs, _ in hit[0]:
+                if i not in seen:
+                    seen.add(i)
+                    out.extend(fs)
+            return
+        found = []
+        self._nth_concat_scan(t, found)
+        self._fc_memo[key] = (found, t)
+        for i, fs, _ in found:
+            if i not in seen:
+                seen.add(i)
+                out.extend(fs)
+
+    def _nth_concat_scan(self, t, found):
         stack = [t]
         visited = set()
+        seen = set()
+        out = None
         while stack:
             x = stack.pop()
             i = x.get_id()
@@ -328,9 +371,10 @@ class Engine:
                         seen.add(i)
                         a, b = sq.arg(0), sq.arg(1)
                         la = z3.Length(a)
-                        out.append(z3.Implies(z3.And(ix >= 0, ix < la), x == a[ix]))
-                        out.append(z3.Implies(z3.And(ix >= la, ix < la + z3.Length(b)),
-                                              x == b[ix - la]))
+                        found.append((i, [
+                            z3.Implies(z3.And(ix >= 0, ix < la), x == a[ix]),
+                            z3.Implies(z3.And(ix >= la, ix < la + z3.Length(b)),
+                                       x == b[ix - la])], x))
                 stack.extend(x.children())
 
     def nth_indices(self, t):
@@ -820,7 +864,10 @@ class Engine:
             yield st, Raise('AttributeError', (), line)
             return
         if k == 'exc':
-            yield st, V(FN, ('libm', 'exc.' + attr, o))
+            fn = self.lib.LIBM.get(('exc', attr))
+            if fn is None:
+                raise EngineError('exception attribute %s at line %d' % (attr, line))
+            yield st, V(FN, ('libm', 'exc.' + attr, o, fn))
             return
         m = self.lib.method(self, o, attr)
         if m is None:
@@ -1103,6 +1150,14 @@ class Engine:
                 else:
                     yield s2, Raise('TypeError', (), line)
             return
+        if f.ty.kind == 'opaque' and is_opt(f.ty):
+            for s2, null in self.fork(st, f.t == 0):
+                if null:
+                    yield s2, Raise('TypeError', (), line)
+                else:
+                    yield from self.lib.call_opaque(self, s2, V(Opaque(f.ty.args[0]), f.t), args,
+                                                    kwargs, line)
+            return
         if f.ty.kind == 'opaque':
             yield from self.lib.call_opaque(self, st, f, args, kwargs, line)
             return
@@ -1234,6 +1289,7 @@ class Engine:
             if isinstance(d, ast.Call) and isinstance(d.func, ast.Name) and \
                     d.func.id in ('recursive', 'opaque'):
                 kw = {k.arg: ast.literal_eval(k.value) for k in d.keywords}
+                kw['fuel'] = 1 if d.func.id == 'recursive' else 3
                 return kw
         return None
 
@@ -1265,7 +1321,9 @@ class Engine:
         f = z3.Function('rec_%s__%d' % (node.name, zlib.crc32(sig.encode()) % 100000),
                         *(dom + [sort_of(ret)]))
         term = f(*actual)
-        if self.unfolding == 0 and self.bound_depth == 0:
+        key = term.get_id()
+        if self.unfolding < rec['fuel'] and self.bound_depth == 0 and key not in self._unfolded:
+            self._unfolded[key] = term
             self.unfolding += 1
             try:
                 clean = State()
@@ -1424,24 +1482,16 @@ class Engine:
         for rc in c.raises_:
             w = self.spec_bool(rc.when, pre, penv)
             whens.append(w)
-            s2 = self.assume(post, w)
-            if s2 is None:
-                continue
-            ok = True
-            for cl in rc.ensures:
-                s2 = self.assume(s2, self.spec_bool(cl.src, s2, penv, pre=pre), copy=False)
-                if s2 is None:
-                    ok = False
-                    break
-            if ok:
+            s2 = post.copy()
+            s2 = self.add_all(s2, [w] + [self.spec_bool(cl.src, s2, penv, pre=pre)
+                                         for cl in rc.ensures])
+            if s2 is not None:
                 s2.trace = s2.trace + ('c%d!%s' % (line, rc.label),)
                 yield s2, Raise(rc.exc, (), line)
         s2 = post
         for rc, w in zip(c.raises_, whens):
             if rc.exact:
-                s2 = self.assume(s2, z3.Not(w))
-                if s2 is None:
-                    return
+                s2.pc.append(z3.Not(w))
         if c.ret_cases is not None:
             for lab, guard, ty in c.ret_cases:
                 s3 = self.assume(s2, self.spec_bool(guard, pre, penv))
@@ -1449,14 +1499,9 @@ class Engine:
                     continue
                 res = VNONE if ty.kind == 'none' else self.fresh(ty, 'ret_' + full.split('.')[-1],
                                                                  s3)
-                ok = True
-                for cl in c.ensures_:
-                    s3 = self.assume(s3, self.spec_bool(cl.src, s3, penv, result=res, pre=pre),
-                                     copy=False)
-                    if s3 is None:
-                        ok = False
-                        break
-                if ok:
+                s3 = self.add_all(s3, [self.spec_bool(cl.src, s3, penv, result=res, pre=pre)
+                                       for cl in c.ensures_])
+                if s3 is not None:
                     s3.trace = s3.trace + ('c%d:%s' % (line, lab),)
                     yield s3, res
             return
@@ -1464,12 +1509,10 @@ class Engine:
             res = VNONE
         else:
             res = self.fresh(c.ret, 'ret_' + full.split('.')[-1], s2)
-        for cl in c.ensures_:
-            s2 = self.assume(s2, self.spec_bool(cl.src, s2, penv, result=res, pre=pre),
-                             copy=False)
-            if s2 is None:
-                return
-        yield s2, res
+        s2 = self.add_all(s2, [self.spec_bool(cl.src, s2, penv, result=res, pre=pre)
+                               for cl in c.ensures_])
+        if s2 is not None:
+            yield s2, res
 
     def havoc(self, st, locs, penv, full):
         for loc in locs:
@@ -1519,17 +1562,50 @@ class Engine:
             yield st, None
             return
         for s1, out in self.ex(stmts[0], st):
+            if self.shard is not None and not s1.sharded and not s1.spec and \
+                    len(s1.trace) >= self.shard_depth:
+                # path sharding: each worker follows the paths whose first branch decisions hash
+                # to its index (the common prefix is explored by every worker)
+                import zlib
+                s1.sharded = True
+                h = zlib.crc32(repr(s1.trace[:self.shard_depth]).encode())
+                if h % self.shard[1] != self.shard[0]:
+                    continue
             if out is None:
                 yield from self.ex_block(stmts[1:], s1)
             else:
                 yield s1, out
 
     def ex(self, s, st):
+        c = self.cur_contract
+        if c is not None and c.abstract_ and not st.spec:
+            seg = self._stmt_text(s)
+            for pat, reason in c.abstract_:
+                if seg.startswith(pat):
+                    note = 'abstract region (not modelled): line %d: %s - %s' % (
+                        s.lineno, pat, reason)
+                    if note not in self.dropped:
+                        self.dropped.append(note)
+                    return iter([(st, None)])
+        if c is not None and c.checks_ and not st.spec:
+            seg = self._stmt_text(s)
+            for pat, cl in c.checks_:
+                if seg.startswith(pat):
+                    self.check_hits.add(pat)
+                    self.oblige(st, 'assert', cl.label,
+                                self.spec_bool(cl.src, st, dict(st.env), goal=True),
+                                props=cl.props, line=s.lineno)
         m = getattr(self, 'ex_' + type(s).__name__, None)
         if m is None:
             raise EngineError('unsupported statement %s at line %d'
                               % (type(s).__name__, s.lineno))
         return m(s, st)
+
+    def _stmt_text(self, s):
+        try:
+            return ' '.join(ast.unparse(s).split())
+        except Exception:
+            return ''
 
     def ex_Pass(self, s, st):
         yield st, None
@@ -1821,7 +1897,10 @@ class Engine:
         if spec is None or spec.unroll:
             yield from self._unroll_while(s, st, spec.unroll if spec else 0, ordn)
             return
-        head = self._loop_head(s, st, spec, ordn, None)
+        if getattr(spec, 'summarize', False) and not st.spec:
+            head = self._summarized_head(s, st, spec, ordn)
+        else:
+            head = self._loop_head(s, st, spec, ordn, None)
         if head is None:
             return
         for s1, c in self.ev(s.test, head):
@@ -1835,6 +1914,57 @@ class Engine:
                 s2.trace = s2.trace + ('w%d' % s.lineno,)
                 for s3, out in self.ex_block(s.body, s2):
                     yield from self._loop_tail(s, s3, out, spec, ordn, st, None)
+
+    def _summarized_head(self, s, st, spec, ordn):
+        """Modular loop cut: inv-init is proved for every arriving path, but the loop body and
+        the code after the loop are explored ONCE, from an arbitrary state that satisfies the
+        function's entry assumptions, the function-level frame and the invariant (nothing else is
+        remembered from the arriving path). Sound: that state is weaker than every arrival."""
+        self._pre_loop_locals[id(s)] = set(k for k in st.env if not k.startswith('__'))
+        for cl in spec.invariants:
+            g = self.spec_bool(cl.src, st, dict(st.env), goal=True)
+            self.oblige(st, 'inv-init', 'loop%d:%s' % (ordn, cl.label), g, props=cl.props,
+                        line=s.lineno)
+        # only locals that are read at or after the loop matter; names the loop itself assigns
+        # (its declared frame) may be unbound on some arrivals (loop-local temporaries)
+        used = set()
+        fn = self._cur_node
+        for n in ast.walk(fn):
+            if isinstance(n, ast.Name) and isinstance(n.ctx, ast.Load) and \
+                    getattr(n, 'lineno', 0) >= s.lineno:
+                used.add(n.id)
+        shape = {k: v.ty for k, v in st.env.items()
+                 if not k.startswith('__') and k in used and k not in spec.modifies}
+        done = self._loops_done.get(id(s))
+        if done is not None:
+            if done != shape:
+                raise EngineError('summarized loop %d at line %d is reached with differently '
+                                  'typed locals' % (ordn, s.lineno))
+            return None
+        self._loops_done[id(s)] = shape
+        pre = self.cur_pre
+        head = pre.copy()
+        head.pre = pre
+        head.entry_env = st.entry_env
+        head.trace = ('L%d' % s.lineno,)
+        head.sharded = True
+        head.loopw = set()
+        head.writes = set()
+        self.havoc_alloc(head)
+        self.havoc(head, self.cur_contract.modifies_, self.cur_penv, 'loop')
+        head.loopw = set()
+        env = dict(st.env)
+        for k, v in st.env.items():
+            if k.startswith('__') or k in self.cur_penv and st.env[k] is self.cur_penv[k]:
+                continue
+            if v.ty.kind in ('fn', 'mod'):
+                continue
+            if k not in shape:
+                del env[k]          # dead, or first assigned by the loop itself
+                continue
+            env[k] = self.fresh_like(v, k, head)
+        head.env = env
+        return self.add_all(head, [self.spec_bool(cl.src, head, env) for cl in spec.invariants])
 
     def _unroll_while(self, s, st, n, ordn):
         raise EngineError('loop %s at line %d has no invariant' % (ordn, s.lineno))
@@ -1865,11 +1995,7 @@ class Engine:
         if idx is not None:
             env[spec.index or '_i'] = idx
         head.env = env
-        for cl in spec.invariants:
-            head = self.assume(head, self.spec_bool(cl.src, head, env), copy=False)
-            if head is None:
-                return None
-        return head
+        return self.add_all(head, [self.spec_bool(cl.src, head, env) for cl in spec.invariants])
 
     def havoc_alloc(self, st):
         """Objects may have been allocated by earlier iterations / by a callee."""
@@ -2058,7 +2184,10 @@ class Engine:
         self.cur_func = qualname
         self.cur_contract = c
         self.cur_is_async = isinstance(node, ast.AsyncFunctionDef)
+        self._cur_node = node
         self.number_loops(node)
+        self._loops_done = {}
+        self.check_hits = set()
         n0 = len(self.obls)
         union = [(n, t) for n, t in c.params.items() if isinstance(t, list)]
         total = 0
@@ -2066,6 +2195,11 @@ class Engine:
             self.typing = {n: t for (n, _), t in zip(union, combo)}
             self.case_tag = ','.join('%s:%s' % (n, t.kind) for (n, _), t in zip(union, combo))
             total += self._verify_case(qualname, c, mod, node)
+        if self.shard is None:
+            for pat, cl in c.checks_:
+                if pat not in self.check_hits:
+                    raise EngineError('contract drift: no statement of %s matches the program '
+                                      'point %r of check %s' % (qualname, pat, cl.label))
         self.cur_func = None
         self.cur_contract = None
         return self.obls[n0:], total
@@ -2096,6 +2230,8 @@ class Engine:
                     note='must be REFUTED: precondition satisfiable')
         npaths = 0
         for s1, out in self.ex_block(node.body, st):
+            if self.shard is not None and self.shard[0] != 0 and not s1.sharded:
+                continue         # short paths are handled by shard 0 only
             npaths += 1
             self.stats['paths'] += 1
             if out is not None and out[0] in ('break', 'continue'):
@@ -2105,7 +2241,7 @@ class Engine:
                 self.exit_normal(s1, c, penv, pre, res, node)
             else:
                 self.exit_raise(s1, c, penv, pre, out[1], node)
-        if npaths == 0:
+        if npaths == 0 and self.shard is None:
             raise EngineError('no feasible path through %s' % qualname)
         return npaths
 
